@@ -295,7 +295,7 @@ pub fn run_case(c: &Case) -> Result<(), String> {
         let v = vec![(); c.len];
         check::<()>(&v, c)
     } else {
-        let v: Vec<u16> = (0..c.len as u16).map(|i| i * 7 + 1).collect();
+        let v: Vec<u16> = (0..c.len).map(|i| (i as u16).wrapping_mul(7).wrapping_add(1)).collect();
         check::<u16>(&v, c)
     }
 }
@@ -381,6 +381,44 @@ fn explore(ctx: &mut Ctx) {
         }
     }
     ctx.exhaustive_part("lengths {15,16,17,31,32,33,63,64,65,100} x 19 sizes around powers of two x 8 kinds x 3 variants x 9 structured histories run to exhaustion");
+    // long slices of sized elements (lengths beyond 2^15 / 2^16) x sizes around 2^8, 2^14, 2^15, 2^16 and the length
+    for len in [40_000usize, 70_000] {
+        for size in [1usize, 255, 256, 257, 8191, 8192, 16383, 16384, 16385, 32767, 32768, 32769, 39_999, 40_000, 40_001, 65535, 65536, 65537, 69_999, 70_000, 70_001] {
+            for kind in KINDS {
+                if matches!(kind, Kind::Iter | Kind::IterCopied) && size != 1 {
+                    continue;
+                }
+                if kind == Kind::ArrayChunks && size > 5 {
+                    continue;
+                }
+                let steps = (item_count(kind, len, size) as u32 + 2).min(12);
+                for variant in VARIANTS {
+                    for hist in [0u64, u64::MAX, 0xAAAA_AAAA_AAAA_AAAA, 0x5555_5555_5555_5555, 0b0110] {
+                        eval(ctx, Case { kind, variant, unit: false, len, size, hist, steps });
+                    }
+                }
+            }
+        }
+    }
+    ctx.exhaustive_part("lengths {40000, 70000} (u16 elements) x 21 sizes around 2^8, 2^13..2^16 and the length x 8 kinds x 3 variants x 5 histories of up to 12 steps");
+    // chunk / window sizes congruent to a small size modulo 2^8 / 2^16 / 2^32 on short slices
+    for len in [0usize, 1, 2, 5, 8] {
+        for k in [8u32, 16, 32] {
+            for small in [1usize, 2, 3] {
+                let size = (1usize << k) + small;
+                for kind in [Kind::Windows, Kind::Chunks, Kind::RChunks, Kind::ChunksExact, Kind::RChunksExact] {
+                    for variant in VARIANTS {
+                        for unit in [false, true] {
+                            for hist in 0..8u64 {
+                                eval(ctx, Case { kind, variant, unit, len, size, hist, steps: 3 });
+                            }
+                        }
+                    }
+                }
+            }
+        }
+    }
+    ctx.exhaustive_part("sizes 2^8+s, 2^16+s, 2^32+s (s in 1..=3) on lengths {0,1,2,5,8}: all histories of 3 steps");
     // huge chunk / window sizes (valid for std: any non-zero size) and huge zero-sized slices
     let big = [usize::MAX, usize::MAX - 1, usize::MAX / 2 + 1, isize::MAX as usize];
     for len in 0..=8usize {
